@@ -317,9 +317,10 @@ def H_crash_sharded(ctx, cfg):
             w.store_chunk(p, S.KEY, c_)
         return w
     w = writer()
-    c0 = env.fs.calls
+    c0, l0 = env.fs.calls, len(env.fs.log)
     w.close()
     n_calls = env.fs.calls - c0
+    ctx.input("kinds", [x[0] for x in env.fs.log[l0:l0 + n_calls]])
     env.fs.files = {p: d for p, d in env.fs.files.items() if not p.startswith(f"{S.BASE}/{S.KEY}/")}
     w = writer()
     ni = SInt.var("call", "int")
@@ -598,7 +599,104 @@ def replay(cfg, cex):
             return True, f"leftover partial file decoded to {got.ravel().tolist()} (written {new.ravel().tolist()})"
     if h == "fault_sharded":
         return _replay_fault_sharded(cfg, inp)
+    if h == "crash_sharded":
+        return _replay_crash_sharded(cfg, inp)
     return True, "model-level counterexample (fault plan on the model file system); see inputs"
+
+
+class _Interposer:
+    """Wraps the file-system entry points the sharded writer uses (open and the file methods, Path.is_file / mkdir,
+    TemporaryDirectory) so that every call is logged by kind and one chosen call (kind, occurrence) runs `action`."""
+    def __init__(self, sfa, base, action, probe_enoent_ok=True):
+        self.sfa, self.base, self.action, self.probe_enoent_ok = sfa, base, action, probe_enoent_ok
+        self.seq, self.counters, self.target = [], {}, None
+
+    def reset(self, target=None):
+        self.seq, self.counters, self.target = [], {}, target
+
+    def hit(self, k):
+        self.seq.append(k)
+        i = self.counters.get(k, 0)
+        self.counters[k] = i + 1
+        if self.target is not None and (k, i) == tuple(self.target):
+            self.action(k)
+
+    def __enter__(self):
+        import os
+        import pathlib
+        import tempfile
+        import unittest.mock as um
+        ip, sfa = self, self.sfa
+
+        class FileProxy:
+            def __init__(self, f):
+                self._f = f
+
+            def write(self, b):
+                ip.hit("write")
+                return self._f.write(b)
+
+            def read(self, *a):
+                ip.hit("read")
+                return self._f.read(*a)
+
+            def seek(self, *a):
+                ip.hit("seek")
+                return self._f.seek(*a)
+
+            def tell(self):
+                return self._f.tell()
+
+            def close(self):
+                self._f.close()
+                ip.hit("close")
+
+            def __enter__(self):
+                return self
+
+            def __exit__(self, *a):
+                if a and a[0] is not None and not issubclass(a[0], Exception):
+                    self._f.close()          # interrupted process: the descriptor just goes away
+                    return False
+                self.close()
+                return False
+        real_open, real_isfile, real_mkdir, real_td = open, pathlib.Path.is_file, pathlib.Path.mkdir, sfa.TemporaryDirectory
+
+        def p_open(path, mode="r", *a, **k):
+            ip.hit("open:" + mode)
+            return FileProxy(real_open(path, mode, *a, **k))
+
+        def p_isfile(self_):
+            try:
+                ip.hit("is_file")
+            except OSError as exc:
+                if exc.errno in (errno.ENOENT, errno.ENOTDIR, errno.EBADF, errno.ELOOP):
+                    return False
+                raise
+            return real_isfile(self_)
+
+        def p_mkdir(self_, *a, **k):
+            if not str(self_).startswith(tempfile.gettempdir() + os.sep + "tmp") or str(self_).startswith(ip.base):
+                ip.hit("mkdir")
+            return real_mkdir(self_, *a, **k)
+
+        def p_td(*a, **k):
+            ip.hit("mkdir")
+            return real_td(*a, **k)
+        self._had_open = "open" in sfa.__dict__
+        sfa.open = p_open
+        self._patches = [um.patch.object(pathlib.Path, "is_file", p_isfile), um.patch.object(pathlib.Path, "mkdir", p_mkdir),
+                         um.patch.object(sfa, "TemporaryDirectory", p_td)]
+        for p_ in self._patches:
+            p_.start()
+        return self
+
+    def __exit__(self, *a):
+        for p_ in self._patches:
+            p_.stop()
+        if not self._had_open:
+            del self.sfa.open
+        return False
 
 
 def _replay_fault_sharded(cfg, inp):
@@ -606,9 +704,7 @@ def _replay_fault_sharded(cfg, inp):
     it uses are wrapped so that the call the model chose (same kind, same occurrence) fails with the chosen errno.  The
     sequence of call kinds of a fault-free real run must equal the model's, otherwise the replay is not comparable."""
     import os
-    import pathlib
     import tempfile
-    import unittest.mock as um
     sfa = load.mod("sharded_file_accessor")
     acc_mod = load.mod("accessor")
     p0, p1, new, new2 = (bytes(x) for x in inp["payloads"])
@@ -616,85 +712,10 @@ def _replay_fault_sharded(cfg, inp):
     e = getattr(errno, ename)
     strategy = cfg.get("strategy", "in memory")
     info = S.make_info((2, 2, 2), 1, 1, 1, 0)
-    state = dict(seq=[], counters={}, armed=False)
 
-    def hit(k):
-        state["seq"].append(k)
-        i = state["counters"].get(k, 0)
-        state["counters"][k] = i + 1
-        return state["armed"] and k == kind and i == occ
-
-    def boom():
+    def boom(k):
         raise OSError(e, os.strerror(e))
-
-    class FileProxy:
-        def __init__(self, f):
-            self._f = f
-
-        def write(self, b):
-            if hit("write"):
-                boom()
-            return self._f.write(b)
-
-        def read(self, *a):
-            if hit("read"):
-                boom()
-            return self._f.read(*a)
-
-        def seek(self, *a):
-            if hit("seek"):
-                boom()
-            return self._f.seek(*a)
-
-        def tell(self):
-            return self._f.tell()
-
-        def close(self):
-            self._f.close()
-            if hit("close"):
-                boom()
-
-        def __enter__(self):
-            return self
-
-        def __exit__(self, *a):
-            self.close()
-            return False
-    real_open, real_isfile, real_mkdir, real_td = open, pathlib.Path.is_file, pathlib.Path.mkdir, sfa.TemporaryDirectory
-
-    def p_open(path, mode="r", *a, **k):
-        if hit("open:" + mode):
-            boom()
-        return FileProxy(real_open(path, mode, *a, **k))
-
-    def p_isfile(self_):
-        if hit("is_file"):
-            if e in (errno.ENOENT, errno.ENOTDIR, errno.EBADF, errno.ELOOP):
-                return False
-            boom()
-        return real_isfile(self_)
-
-    def p_mkdir(self_, *a, **k):
-        if not str(self_).startswith(tempfile.gettempdir() + os.sep + "tmp") or str(self_).startswith(base):
-            if hit("mkdir"):
-                boom()
-        return real_mkdir(self_, *a, **k)
-
-    def p_td(*a, **k):
-        if hit("mkdir"):
-            boom()
-        return real_td(*a, **k)
-
-    def run(td, armed):
-        state.update(seq=[], counters={}, armed=False)
-        w = sfa.ShardedFileAccessor(td, strategy=strategy)
-        w.info = copy.deepcopy(info)
-        state.update(seq=[], counters={}, armed=armed)       # the model counts from the first store_chunk on
-        w.store_chunk(new, S.KEY, (0, 1, 1, 2, 0, 1))
-        w.store_chunk(new2, S.KEY, (1, 2, 1, 2, 0, 1))
-        w.close()
     with tempfile.TemporaryDirectory() as top:
-        base = top
         results = {}
         for armed in (False, True):
             td = os.path.join(top, "armed" if armed else "dry")
@@ -703,28 +724,25 @@ def _replay_fault_sharded(cfg, inp):
             acc.store_chunk(p0, S.KEY, (0, 1, 0, 1, 0, 1))
             acc.store_chunk(p1, S.KEY, (1, 2, 0, 1, 0, 1))
             acc.close()
-            had_open = "open" in sfa.__dict__
-            sfa.open = p_open
-            patches = [um.patch.object(pathlib.Path, "is_file", p_isfile), um.patch.object(pathlib.Path, "mkdir", p_mkdir),
-                       um.patch.object(sfa, "TemporaryDirectory", p_td)]
-            for p_ in patches:
-                p_.start()
-            try:
+            with _Interposer(sfa, top, boom) as ip:
                 try:
-                    run(td, armed)
+                    w = sfa.ShardedFileAccessor(td, strategy=strategy)
+                    w.info = copy.deepcopy(info)
+                    ip.reset((kind, occ) if armed else None)         # the model counts from the first store_chunk on
+                    w.store_chunk(new, S.KEY, (0, 1, 1, 2, 0, 1))
+                    w.store_chunk(new2, S.KEY, (1, 2, 1, 2, 0, 1))
+                    w.close()
                     results[armed] = None
                 except Exception as exc:
                     results[armed] = exc
-            finally:
-                for p_ in patches:
-                    p_.stop()
-                if not had_open:
-                    del sfa.open
+                    import atexit
+                    atexit.unregister(w.close)
+                seq = list(ip.seq)
             if not armed:
                 if results[False] is not None:
                     return False, f"fault-free real run failed: {results[False]!r}"
-                if state["seq"] != list(inp["kinds"]):
-                    return False, f"real call sequence {state['seq']} differs from the model's {inp['kinds']}: not comparable"
+                if seq != list(inp["kinds"]):
+                    return False, f"real call sequence {seq} differs from the model's {inp['kinds']}: not comparable"
         exc = results[True]
         if exc is None:
             return True, f"{strategy}: store/close returned normally although {kind} #{occ} failed with {ename}"
@@ -740,3 +758,66 @@ def _replay_fault_sharded(cfg, inp):
             if bytes(got) != pl:
                 return True, f"earlier chunk {cc} changed after the failed write"
     return False, "failure reported and earlier chunks intact on the real code"
+
+
+class _Kill(BaseException):
+    pass
+
+
+def _replay_crash_sharded(cfg, inp):
+    """Interrupt the real close() at the call the model chose (same kind and occurrence), cut every shard file down to
+    the prefix the model let survive, and read all chunks back with the real reader."""
+    import os
+    import tempfile
+    sfa = load.mod("sharded_file_accessor")
+    pls = [bytes(x) for x in inp["payloads"]]
+    coords = [(0, 1, 0, 1, 0, 1), (1, 2, 0, 1, 0, 1), (1, 2, 1, 2, 0, 1)]
+    n, files = inp["interruption"][:2]
+    kinds = list(inp["kinds"])
+    target = (kinds[n], kinds[:n].count(kinds[n])) if n < len(kinds) else None
+    info = S.make_info((2, 2, 1), 1, 1, 0, 0)
+
+    def kill(k):
+        raise _Kill()
+    with tempfile.TemporaryDirectory() as top:
+        for armed in (False, True):
+            td = os.path.join(top, "armed" if armed else "dry")
+            with _Interposer(sfa, top, kill) as ip:
+                w = sfa.ShardedFileAccessor(td, strategy="in memory")
+                w.info = copy.deepcopy(info)
+                for c_, p in zip(coords, pls):
+                    w.store_chunk(p, S.KEY, c_)
+                ip.reset(target if armed else None)
+                try:
+                    w.close()
+                except _Kill:
+                    pass
+                import atexit
+                atexit.unregister(w.close)        # the interrupted process never reaches its exit handlers
+                seq = list(ip.seq)
+            if not armed and seq != kinds:
+                return False, f"real call sequence {seq} differs from the model's {kinds}: not comparable"
+        td = os.path.join(top, "armed")
+        # the model lets any prefix of what had been written survive: cut the real files down to that prefix
+        sdir = os.path.join(td, S.KEY)
+        present = {os.path.basename(p): ln for p, ln in (files or {}).items()}
+        for name in (os.listdir(sdir) if os.path.isdir(sdir) else []):
+            full = os.path.join(sdir, name)
+            if name not in present:
+                os.remove(full)
+                continue
+            data = open(full, "rb").read()
+            if len(data) < present[name]:
+                return False, f"{name}: the real run wrote {len(data)} bytes before the interruption, the model {present[name]}: not comparable"
+            open(full, "wb").write(data[:present[name]])
+        r = sfa.ShardedFileAccessor(td)
+        r.info = copy.deepcopy(info)
+        for c_, p in zip(coords, pls):
+            try:
+                got = r.fetch_chunk(S.KEY, c_)
+            except Exception:
+                continue                      # absent or detectably invalid
+            if len(got) and bytes(got) != p:
+                return True, (f"interrupted before call {n} ({target}), files {present}: chunk {c_} reads back as {bytes(got)!r}, "
+                              f"stored {p!r}")
+    return False, "an interrupted close never yields wrong chunk bytes on the real code"
